@@ -29,6 +29,39 @@ func TestVerifToFileGiveUpBin(t *testing.T) {
 	}
 	cases := []tc{{"default", 1}, {"default", 5}, {"default", 6}, {"default", 9}, {"default", 65535},
 		{"max_attempts,5", 6}, {"max_attempts,0", 6}, {"max_attempts,2", 2}, {"max_attempts,2", 3}}
+	// the committed replay of the known finding (corpus/C19/known/max_attempts.txt, audit C36: it used to be read by
+	// nothing): every `tool=nsq_to_file max_attempts=N attempts=M` line is run with the default configuration of
+	// main() and with the operator asking for that N
+	if rp := os.Getenv("VF_E8_GIVEUP_REPLAY"); rp != "" {
+		raw, err := os.ReadFile(rp)
+		if err != nil {
+			t.Fatal(err)
+		}
+		for _, l := range strings.Split(string(raw), "\n") {
+			if strings.HasPrefix(l, "#") || !strings.Contains(l, "tool=nsq_to_file") {
+				continue
+			}
+			mx, att := -1, -1
+			for _, kv := range strings.Fields(l) {
+				fmt.Sscanf(kv, "max_attempts=%d", &mx)
+				fmt.Sscanf(kv, "attempts=%d", &att)
+			}
+			if mx < 0 || att < 0 || att > 65535 {
+				fmt.Printf("GIVEUPBIN-ERROR unreadable replay line %q\n", l)
+				continue
+			}
+			fmt.Printf("GIVEUPBIN-REPLAY max_attempts=%d attempts=%d\n", mx, att)
+			for _, c := range []tc{{"default", uint16(att)}, {fmt.Sprintf("max_attempts,%d", mx), uint16(att)}} {
+				dup := false
+				for _, o := range cases {
+					dup = dup || o == c
+				}
+				if !dup {
+					cases = append(cases, c)
+				}
+			}
+		}
+	}
 	for i, c := range cases {
 		root := t.TempDir()
 		src := vfNewStubNsqd()
